@@ -79,6 +79,35 @@ def writer_decider(an, te, vparam, kind):
     return decide
 
 
+def tuple_component(sp, value, index, node):
+    """the expressions component *index* of a tuple-valued expression can be (through locals), or [value-as-unknown]"""
+    if isinstance(value, (ast.Tuple, ast.List)) and index < len(value.elts):
+        return [value.elts[index]]
+    out = []
+    for k, p in sp.sources(value, node):
+        if k == "expr" and isinstance(p, (ast.Tuple, ast.List)) and index < len(p.elts):
+            out.append(p.elts[index])
+        else:
+            return [ast.Name(id="<component %d of %s>" % (index, ast.unparse(value)[:20]), ctx=ast.Load())]
+    return out
+
+
+def text_writes(sp, fn):
+    """(node, value expr) of every write of an element's text on feasible paths: `x.text = v`, or `..., x.text = pair`"""
+    out = []
+    for n in sp.g.nodes:
+        if n not in sp.normal or n.kind != "assign" or not isinstance(n.ast, ast.Assign):
+            continue
+        for tg in n.ast.targets:
+            if isinstance(tg, ast.Attribute) and tg.attr == "text":
+                out.append((n, n.ast.value))
+            if isinstance(tg, (ast.Tuple, ast.List)):
+                for i_, el in enumerate(tg.elts):
+                    if isinstance(el, ast.Attribute) and el.attr == "text":
+                        out += [(n, c) for c in tuple_component(sp, n.ast.value, i_, n)]
+    return out
+
+
 def tag_writes(sp, te):
     """(node, value expr) of every write of the element's type attribute on feasible paths"""
     out = []
@@ -89,6 +118,11 @@ def tag_writes(sp, te):
             for tg in n.ast.targets:
                 if isinstance(tg, ast.Subscript) and cval(te, tg.slice) == "type":
                     out.append((n, n.ast.value))
+                if isinstance(tg, (ast.Tuple, ast.List)):
+                    # ele.attrib["type"], text = scalar
+                    for i_, el in enumerate(tg.elts):
+                        if isinstance(el, ast.Subscript) and cval(te, el.slice) == "type":
+                            out += [(n, c) for c in tuple_component(sp, n.ast.value, i_, n)]
         if n.kind == "call" and isinstance(n.ast.func, ast.Attribute) and n.ast.func.attr == "set" and len(n.ast.args) == 2 \
                 and cval(te, n.ast.args[0]) == "type":
             out.append((n, n.ast.args[1]))
@@ -339,7 +373,13 @@ def check_xml_tables(ctx, an, model):
         for r in sp.returns():
             if r.ast.value is None:
                 continue
+            leaves = []
             for k, p in sp.sources(r.ast.value, r):
+                if k == "expr" and isinstance(p, ast.Call) and isinstance(p.func, ast.Name) and p.func.id == "str" and len(p.args) == 1 and not p.keywords:
+                    leaves += sp.sources(p.args[0], sp.where.get(id(p)) or r)      # str() of the element text: the text itself
+                else:
+                    leaves.append((k, p))
+            for k, p in leaves:
                 bad = None
                 if k == "expr" and isinstance(p, ast.Attribute) and p.attr == "text":
                     pass
